@@ -277,7 +277,29 @@ impl Property for C06 {
             Tier::Thorough => 40_000_000,
         }
     }
-    fn generate(&self, seed: u64, run: u64, _tier: Tier, _avoid: &BTreeSet<String>) -> MacCase {
+    fn generate(&self, seed: u64, run: u64, tier: Tier, avoid: &BTreeSet<String>) -> MacCase {
+        // one run in five borrows another property"s generator (same case type), so that this oracle also
+        // judges histories of shapes its own generator does not produce
+        if let Some(c) = super::cross_generate("C06", &["C04", "C05", "C07", "C08", "C09", "C12"], seed, run, tier, avoid) {
+            return c;
+        }
+        self.own_generate(seed, run, tier, avoid)
+    }
+    fn execute(&self, case: &MacCase, want_trace: bool) -> Outcome {
+        let mut mon = Mon { last_n: None, expired: false, fcnt_up_before: if case.cfg.otaa { None } else { Some(case.cfg.fcnt_up0) }, frames_checked: 0, last_frame: vec![], cur_keys: None };
+        let out = run_case(case, &mut mon, want_trace);
+        Outcome { violation: out.violation, stats: out.stats, trace: out.trace }
+    }
+    fn self_test(&self) -> Result<(), String> {
+        crate::self_test_refs()
+    }
+    fn expected_probes(&self, _tier: Tier) -> Vec<&'static str> {
+        vec!["probe.frame-at-failed-tx", "probe.op-ended-in-radio-error", "probe.uplink-epoch-rollover", "probe.uplink-near-2^32", "probe.long-unanswered-run", "probe.session-expired", "probe.new-session", "fault.tx", "fault.setup_rx", "fault.rx_single", "fault.low_power", "fault.nb_tx_request", "fault.nb_rx_request", "fault.nb_cancel_rx"]
+    }
+}
+
+impl C06 {
+    pub fn own_generate(&self, seed: u64, run: u64, _tier: Tier, _avoid: &BTreeSet<String>) -> MacCase {
         if let Some(c) = systematic(run) {
             return c;
         }
@@ -335,16 +357,5 @@ impl Property for C06 {
             }
         }
         MacCase { cfg, ops, knob: 0 }
-    }
-    fn execute(&self, case: &MacCase, want_trace: bool) -> Outcome {
-        let mut mon = Mon { last_n: None, expired: false, fcnt_up_before: if case.cfg.otaa { None } else { Some(case.cfg.fcnt_up0) }, frames_checked: 0, last_frame: vec![], cur_keys: None };
-        let out = run_case(case, &mut mon, want_trace);
-        Outcome { violation: out.violation, stats: out.stats, trace: out.trace }
-    }
-    fn self_test(&self) -> Result<(), String> {
-        crate::self_test_refs()
-    }
-    fn expected_probes(&self, _tier: Tier) -> Vec<&'static str> {
-        vec!["probe.frame-at-failed-tx", "probe.op-ended-in-radio-error", "probe.uplink-epoch-rollover", "probe.uplink-near-2^32", "probe.long-unanswered-run", "probe.session-expired", "probe.new-session", "fault.tx", "fault.setup_rx", "fault.rx_single", "fault.low_power", "fault.nb_tx_request", "fault.nb_rx_request", "fault.nb_cancel_rx"]
     }
 }
